@@ -125,7 +125,10 @@ Pack(t, v) ==
     [] t.k = "struct" -> PackFields(t, v, 1, Empty)
 
 DefaultName(n) == CASE n = "F0" -> "f0" [] n = "F1" -> "f1" [] n = "F2" -> "f2" [] n = "F3" -> "f3" [] n = "X" -> "x" [] n = "Y" -> "y"
-                     [] n = "From" -> "from" [] n = "To" -> "to" [] n = "At" -> "at" [] n = "Kind" -> "kind" [] OTHER -> n
+                     [] n = "From" -> "from" [] n = "To" -> "to" [] n = "At" -> "at" [] n = "Kind" -> "kind"
+                     \* exported Go names need not start with an ASCII letter: the setting is the lower-cased name
+                     [] n = "Übrig" -> "übrig" [] n = "Étage" -> "étage" [] n = "Größe" -> "größe" [] n = "X_1" -> "x_1" [] n = "Q" -> "q"
+                     [] n = "ÄÖ" -> "äö" [] OTHER -> n
 
 \* The StructTag(key) option: the tags of a struct type count only when they are written under the key the option
 \* names ("config" without the option); otherwise every exported field is an ordinary setting under its
